@@ -140,6 +140,15 @@ class Intervals:
         return d.get(name)
 
     @staticmethod
+    def _writes_local_node(x, name):
+        """is node x itself an assignment / increment of local `name`"""
+        k = x.get('k')
+        if k == 'assign' or (k == 'un' and x.get('op') in ('++', '--', 'post++', 'post--', '&')):
+            t = unwrap_casts(x.get('lhs') if k == 'assign' else x.get('e'))
+            return isinstance(t, dict) and t.get('k') == 'ref' and t.get('name') == name and t.get('dk') in ('local', 'parm')
+        return False
+
+    @staticmethod
     def _writes_local(n, name):
         for x in walk(n):
             k = x.get('k')
@@ -231,6 +240,26 @@ class Intervals:
                         if not in_init:
                             lo = min(lo, end)
                     const_loops[name] = (lo, hi)
+            if k == 'rangefor':
+                # a counter advanced in step with a range-for over a fixed-size array:
+                #   T x = c0; for (auto& e : arr /* N elements */) { ... x ...; ++x; }      =>  x in [c0, c0 + N - 1] inside the body
+                import re as _re
+                m_ = _re.search(r'std::array<.*, (\d+)>', str((n.get('range') or {}).get('t', '')))
+                b_ = n.get('body') or {}
+                stmts_ = b_.get('body', []) if b_.get('k') == 'block' else [b_]
+                if m_ and stmts_:
+                    last = unwrap_casts(stmts_[-1])
+                    if isinstance(last, dict) and last.get('k') == 'un' and last.get('op') in ('++', 'post++'):
+                        t_ = unwrap_casts(last.get('e'))
+                        if isinstance(t_, dict) and t_.get('k') == 'ref' and t_.get('dk') == 'local':
+                            nm_ = t_['name']
+                            writes_ = [x for x in walk(func.get('body')) if x is not last and self._writes_local_node(x, nm_)]
+                            decl_ = [x for x in walk(func.get('body')) if x.get('k') == 'var' and x.get('name') == nm_]
+                            uses_out = [x for x in walk(func.get('body')) if x.get('k') == 'ref' and x.get('name') == nm_
+                                        and not any(y is x for y in walk(n))]
+                            c0 = const_value(decl_[0].get('init')) if len(decl_) == 1 and 'init' in decl_[0] else None
+                            if c0 is not None and not writes_ and not uses_out:
+                                const_loops[nm_] = (c0, c0 + int(m_.group(1)) - 1)
             if k == 'var':
                 decls[n['name']] = n
             elif k == 'assign':
@@ -601,6 +630,31 @@ class Intervals:
             a = [self.iv(x, func, env, penv, depth) for x in args[:2]]
             if a[0] is not None and a[1] is not None:
                 return (max(a[0][0], a[1][0]), max(a[0][1], a[1][1]))
+            return tr
+        if fn.startswith('std::distance<') and len(args) == 2:
+            # std::distance(A.begin(), it) over a fixed-size array A: 0 .. N; N is excluded when the same iterator has been
+            # compared against A.end() on the way here (the position of a found element)
+            import re as _re
+            a0 = unwrap_casts(args[0])
+            if isinstance(a0, dict) and a0.get('k') == 'call' and a0.get('name') in ('begin', 'cbegin') and a0.get('obj') is not None:
+                m = _re.match(r'std::array<.*, (\d+)>$', str(a0.get('cls', '')))
+                if m:
+                    n_el = int(m.group(1))
+                    it = unwrap_casts(args[1])
+                    found = False
+                    if func is not None and isinstance(it, dict) and it.get('k') == 'ref':
+                        from .guards import guards_at
+                        for c, pol, src in guards_at(func.get('body'), e):
+                            c2 = unwrap_casts(c)
+                            # it != A.end() (operator!= / ==) taken on the path
+                            txt = [x for x in walk(c2) if x.get('k') == 'ref' and x.get('name') == it.get('name')]
+                            ends = [x for x in walk(c2) if x.get('k') == 'call' and x.get('name') in ('end', 'cend')]
+                            if txt and ends:
+                                is_ne = (isinstance(c2, dict) and (c2.get('op') in ('!=',) or 'operator!=' in str(c2.get('fn', ''))))
+                                is_eq = (isinstance(c2, dict) and (c2.get('op') in ('==',) or 'operator==' in str(c2.get('fn', ''))))
+                                if (is_ne and pol) or (is_eq and not pol):
+                                    found = True
+                    return (0, n_el - 1 if found else n_el)
             return tr
         if name == 'size' and str(e.get('cls', '')).startswith('std::array<'):
             import re as _re
